@@ -111,13 +111,14 @@ def leaves(n):
         "blockdiag_square", "blockdiag_sym", "blockdiag_pd",
         "lowrank_square", "lowrank_square_neg", "lowrank_sym", "lowrank_sym_neg", "lowrank_pd", "lowrank_pd_neg",
         "lowrank_square_cap", "lowrank_pd_inner", "lowrank_square_k2", "lowrank_square_k2_cap",
+        "product_invertible",
     ]
     if n == 2:
         L += ["softabs_dense"]
     return L
 
 
-RECT = ["dense_rect", "block_row", "block_col", "block_row_identity_first", "block_col_identity_first"]
+RECT = ["dense_rect", "block_row", "block_col", "block_row_identity_first", "block_col_identity_first", "product_rect"]
 
 
 def make_leaf(M, mk, kind, n, tag="a"):
@@ -322,6 +323,15 @@ def make_leaf(M, mk, kind, n, tag="a"):
                 mk.require(det(dense[:m_, :m_]) > 0)
         obj = M.PositiveDefiniteLowRankUpdateMatrix(M.DenseRectangularMatrix(F), M.PositiveDiagonalMatrix(d), inner, sign=sign)
         return obj, dense
+    if kind == "product_invertible":
+        # products of matrix objects are matrix objects themselves (MatrixProduct hierarchy: own hash / equality / inverse)
+        f1, r1 = make_leaf(M, mk, "dense_square", n, p + "f1")
+        f2, r2 = make_leaf(M, mk, "diagonal", n, p + "f2")
+        return f1 @ f2, r1 @ r2
+    if kind == "product_rect":
+        f1, r1 = make_leaf(M, mk, "diagonal", n, p + "f1")
+        f2, r2 = make_leaf(M, mk, "dense_rect", n, p + "f2")
+        return f1 @ f2, r1 @ r2
     if kind == "dense_rect":
         A = mk.arr(p + "_a", (n, n + 1))
         return M.DenseRectangularMatrix(A), A
